@@ -118,7 +118,14 @@ def close(a, b, tol=1e-6):
     return abs(a - b) <= tol * max(1.0, abs(a), abs(b))
 
 
+def unwrap(v):
+    if isinstance(v, np.ndarray) and v.ndim == 0:
+        return v.item()
+    return v
+
+
 def is_nan(v):
+    v = unwrap(v)
     if isinstance(v, (SR, Dual, SB)):
         return False
     try:
@@ -159,7 +166,7 @@ def eval_concrete(case, Ic):
 
 
 def write_replay(case, Ic, failed, O, err):
-    d = os.path.join(ROOT, 'replays', case.prop)
+    d = os.path.join(os.environ.get('VF_REPLAY_DIR') or os.path.join(ROOT, 'replays'), case.prop)
     os.makedirs(d, exist_ok=True)
     body = dict(property=case.prop, engine='pysym', case=case.name, module=case.__class__.__module__, params=getattr(case, 'params', None),
                 inputs=jsonable(Ic), failed=failed, observed=jsonable(O) if O is not None else None, error=repr(err) if err else None)
